@@ -11,6 +11,7 @@ import (
 	"context"
 	"encoding/json"
 	"fmt"
+	"math"
 	"sort"
 	"strconv"
 	"strings"
@@ -83,6 +84,8 @@ func (v fval) tok() string {
 		return "i" + strconv.FormatInt(v.i, 10)
 	case "f":
 		return "f" + strconv.FormatInt(v.i, 10)
+	case "F":
+		return "F" + strconv.FormatUint(math.Float64bits(float64(v.i)), 10)
 	default:
 		if v.b {
 			return "b1"
@@ -108,6 +111,9 @@ func (v fval) json() string {
 		return strconv.FormatInt(v.i, 10)
 	case "f":
 		return strconv.FormatFloat(float64(v.i)/8, 'f', -1, 64)
+	case "F":
+		// an integral float written without a fraction (in GraphQL: an integer literal for a Float field)
+		return strconv.FormatInt(v.i, 10)
 	default:
 		return strconv.FormatBool(v.b)
 	}
@@ -133,6 +139,8 @@ func (v fval) goval() any {
 		return v.i
 	case "f":
 		return float64(v.i) / 8
+	case "F":
+		return float64(v.i)
 	default:
 		return v.b
 	}
@@ -158,6 +166,10 @@ func genFval(r *vc.Rng, kind string) fval {
 	case "i":
 		return fval{k: "i", i: []int64{0, 1, 23, 24, 255, 256, 65535, 65536, -1, -24, -25, -256, -257, 4294967295, 4294967296, -4294967297, 9007199254740993, -9223372036854775808, 9223372036854775807}[r.Intn(19)]}
 	case "f":
+		if r.Chance(1, 4) {
+			// integral values that need all of binary64 (not exact in binary32)
+			return fval{k: "F", i: []int64{16777217, 123456789, 4294967297, -16777219, 9007199254740991}[r.Intn(5)]}
+		}
 		return fval{k: "f", i: []int64{0, 4, 12, -18, 8, 800, 1, -1, 16376, 7}[r.Intn(10)]}
 	default:
 		return fval{k: "b", b: r.Bool()}
